@@ -26,3 +26,5 @@ def run(prog, rep):
     from ..rules import r_io as _rio2
     _rio2.run_swapped(prog, rep)
     r_pair.run_vectors(prog, rep)
+    from ..rules import r_safe as _rs
+    _rs.run_stale_size(prog, rep)
